@@ -129,7 +129,7 @@ PROPS["C16"] = dict(
     level_note="Trusts libc (strcpy/strcat/strstr/memmove/strcmp) on the reference buffer.",
     quick=[("asan", 16, 600), ("plain", 8, 600)],
     thorough=[("asan", 16, 6000), ("plain", 16, 20000), ("memcheck", 8, 30, {"budget": 900})],
-    floors={"quick": {"rem_at_start": 20, "rem_in_middle": 20, "rem_at_end": 20, "rem_overlapping_occurrences": 5,
+    floors={"quick": {"formatted_writes_with_a_literal_percent": 200, "piece_lengths_swept": 400, "rem_at_start": 20, "rem_in_middle": 20, "rem_at_end": 20, "rem_overlapping_occurrences": 5,
                       "rem_first_of_several": 20, "rem_absent": 20, "empty_argument": 20,
                       "argument_equal_to_target": 10, "resize_0": 10, "resize_grow": 20, "formatted_writes": 50}},
     rule="case = one heap String driven through 25-75 (thorough: up to 145) random operations, all observables "
@@ -416,7 +416,7 @@ PROPS["C19"] = dict(
                "refused for them; reallocating operations are refused for stack and static Strings and Tuples.",
     quick=[("asan", 16, 30), ("plain", 8, 30)],
     thorough=[("asan", 16, 1500), ("plain", 16, 4000), ("memcheck", 8, 3, {"budget": 900})],
-    floors={"quick": {"sized_map_checks": 2000, "sized_sequence_checks": 1000, "sized_maps_value_larger_than_key": 100, "sized_maps_key_larger_than_value": 100, "objects_observed": 5000, "refusals_checked": 2000, "neighbour_checks": 100,
+    floors={"quick": {"iterator_result_walks": 1000, "sized_map_checks": 2000, "sized_sequence_checks": 1000, "sized_maps_value_larger_than_key": 100, "sized_maps_key_larger_than_value": 100, "objects_observed": 5000, "refusals_checked": 2000, "neighbour_checks": 100,
                       "heap_objects_released_once": 50, "empty_registry_thread_runs": 20}},
     rule="evaluation = one observation or one refused operation; the enumeration is run completely at sizes "
          "1,2,3,7,64 by shard 0 and at random sizes by the generated cases; distinct = container size; non-trivial = "
